@@ -20,7 +20,7 @@ RULE = ('cases are key-management histories of 6-24 steps with public-twin deriv
         'twin derived before a later structural change (identity, subkey, signature, protection) was exported and compared, or a '
         'twin of an unlocked protected key was exported; distinct = distinct step-kind sequences')
 TIERS = {'quick': {'runs': 3000, 'budget_s': 90}, 'thorough': {'runs': 120000, 'budget_s': 1500}}
-PROBES = ('twin_held', 'twin_collected', 'held_twin_after_add_subkey', 'held_twin_after_add_uid', 'twin_of_unlocked_protected_key',
+PROBES = ('ghost_of_copied_key_kept', 'twin_held', 'twin_collected', 'held_twin_after_add_subkey', 'held_twin_after_add_uid', 'twin_of_unlocked_protected_key',
           'twin_of_locked_key', 'private_op_refused', 'protect_on_public_noop', 'loaded_public_key_ops', 'armored_export_scanned')
 WEIGHTS = {'derive_pub': 3.0, 'drop_pub': 1.0, 'add_subkey': 2.0, 'add_uid': 1.5, 'add_uattr': 0.8, 'protect': 1.2, 'tick': 0.8,
            'export_import': 0.6, 'copy_key': 0.4, 'recertify': 1.0, 'certify_other': 1.0, 'direct_other': 0.5}
@@ -165,6 +165,10 @@ def execute(case, ctx):
         name = step.get('key')
         out = h.apply(step)
         ctx.event(step['id'], step['op'], name, out)
+        if h.ghosts:
+            ctx.checked()
+            for msg in h.ghost_violations():
+                ctx.viol('C07:original-changed-through-copy', msg)
         if name not in h.priv or h.priv[name].is_public:
             continue
         k, mk = h.priv[name], h.model[name]
